@@ -11,7 +11,9 @@ N-RET    ``t = E; return t``  ->  ``return E``     (t a plain local name assigne
 N-NOT    ``if not c: A else: B``  ->  ``if c: B else: A``  and  ``x if not c else y`` -> ``y if c else x``
          (no elif chain is reordered: only a plain else is swapped)
 N-IFEXP  ``return a if c else b`` -> ``if c: return a / else: return b``; ``x = a if c else b`` likewise
-         (only when the conditional expression is the whole right-hand side)
+         (when the conditional expression is the whole right-hand side); also ``return f(x, k=a if c else b)`` ->
+         ``if c: return f(x, k=a) / else: return f(x, k=b)`` (a direct argument of the returned / assigned call, test
+         without calls or subscripts, so that evaluating it before the other arguments cannot be observed)
 N-TESTVAR ``t = E; if t: ...`` -> ``if E: ...`` when ``t`` is read nowhere else in the function
 N-LOOP   ``acc = []; for x in xs: [t = f(x);] acc.append(g(t))``  ->  ``acc = [g(f(x)) for x in xs]`` - also
          nested loops, one ``if`` filter without else, ``acc += [e]``, ``d = {}; d[k] = v`` (dict
@@ -200,6 +202,28 @@ class _Normalizer(ast.NodeTransformer):
             e = st.value
             mk = lambda v: ast.copy_location(ast.Assign(targets=[ast.Name(id=st.targets[0].id, ctx=ast.Store())], value=v), st)  # noqa: E731
             return ast.copy_location(ast.If(test=e.test, body=[mk(e.body)], orelse=[mk(e.orelse)]), st)
+        # N-IFEXP (argument): `return f(x, k=a if c else b)` -> `if c: return f(x, k=a) / else: return f(x, k=b)` (same for
+        # `v = f(...)`), for a test without calls / subscripts: evaluating it before the other arguments is not observable
+        value = st.value if isinstance(st, ast.Return) or (isinstance(st, ast.Assign) and len(st.targets) == 1 and isinstance(st.targets[0], ast.Name)) else None
+        if isinstance(value, ast.Call):
+            import copy
+
+            slots = [("args", i) for i, a in enumerate(value.args) if isinstance(a, ast.IfExp)] + [("keywords", i) for i, k in enumerate(value.keywords) if isinstance(k.value, ast.IfExp)]
+            for field, i in slots:
+                e = value.args[i] if field == "args" else value.keywords[i].value
+                if any(isinstance(n, (ast.Call, ast.Subscript, ast.NamedExpr, ast.Await, ast.Yield, ast.YieldFrom)) for n in ast.walk(e.test)):
+                    continue
+                arms = []
+                for arm in (e.body, e.orelse):
+                    new = copy.copy(st)
+                    call = copy.copy(value)
+                    if field == "args":
+                        call.args = [*value.args[:i], arm, *value.args[i + 1:]]
+                    else:
+                        call.keywords = [*value.keywords[:i], ast.copy_location(ast.keyword(arg=value.keywords[i].arg, value=arm), value.keywords[i]), *value.keywords[i + 1:]]
+                    new.value = call
+                    arms.append(_Normalizer._desugar_ifexp(new))
+                return ast.copy_location(ast.If(test=e.test, body=[arms[0]], orelse=[arms[1]]), st)
         return st
 
     @staticmethod
